@@ -5,6 +5,7 @@ Tokens are space separated; strings are dot-separated hexadecimal code points (`
 import HtmlVerif.Model.Tree
 import HtmlVerif.Model.Render
 import HtmlVerif.Model.Attrs
+import HtmlVerif.Model.Hook
 
 namespace HtmlVerif.Wire
 open HtmlVerif
@@ -214,5 +215,90 @@ def encErr : Err → String
 def encExcept {α} (f : α → String) : Except Err α → String
   | .ok a => "ok " ++ f a
   | .error e => "err " ++ encErr e
+
+end HtmlVerif.Wire
+
+/-! ### display-hook programs (C17): `Val`, `Item`, `Prog`, `Outcome` -/
+namespace HtmlVerif.Wire
+open HtmlVerif HtmlVerif.Hook
+
+/-- displayed value: `vn` None, `ve` Ellipsis, `vt s`, `vm txt` (number), `vh s` (HTML), `vr s` (`_repr_html_` object),
+    `vg id` (Tag), `vi` (invalid) -/
+def hookVal : P Val := do
+  let t ← next
+  match t with
+  | "vn" => pure .none
+  | "ve" => pure .ellipsis
+  | "vt" => .text <$> str
+  | "vm" => .num <$> str
+  | "vh" => .html <$> str
+  | "vr" => .reprHtml <$> str
+  | "vg" => .tagRef <$> nat
+  | "vi" => pure .invalid
+  | _ => throw s!"bad hook value {t}"
+
+/-- stored child: `it s`, `ih s`, `ir s`, `ig id` -/
+def hookItem : P Item := do
+  let t ← next
+  match t with
+  | "it" => .text <$> str
+  | "ih" => .html <$> str
+  | "ir" => .robj <$> str
+  | "ig" => .tagRef <$> nat
+  | _ => throw s!"bad hook item {t}"
+
+mutual
+  /-- statement: `d <val>` | `b <tag id> [ stmts ]` | `r` -/
+  partial def hookProg : P Prog := do
+    let t ← next
+    match t with
+    | "d" => .display <$> hookVal
+    | "b" => do let i ← nat; let b ← hookProgs; pure (.block i b)
+    | "r" => pure .raise
+    | _ => throw s!"bad hook statement {t}"
+  partial def hookProgs : P Progs := do
+    expect "["
+    let rec loop (acc : Array Prog) : P Progs := do
+      match (← peek) with
+      | some "]" => let _ ← next; pure (Progs.ofList acc.toList)
+      | _ => let x ← hookProg; loop (acc.push x)
+    loop #[]
+end
+
+def hookOutcome : P Outcome := do
+  let t ← next
+  match t with
+  | "done" => pure .done
+  | "raised" => do
+    let k ← next
+    match k with
+    | "typeError" => pure (.raised .typeError)
+    | "valueError" => pure (.raised .valueError)
+    | "keyError" => pure (.raised .keyError)
+    | "runtimeError" => pure (.raised .runtimeError)
+    | "notImplemented" => pure (.raised .notImplemented)
+    | "exception" => pure (.raised .exception)
+    | _ => throw s!"bad error kind {k}"
+  | _ => throw s!"bad outcome {t}"
+
+def encHookVal : Val → String
+  | .none => "vn"
+  | .ellipsis => "ve"
+  | .text s => "vt " ++ encStr s
+  | .num s => "vm " ++ encStr s
+  | .html s => "vh " ++ encStr s
+  | .reprHtml s => "vr " ++ encStr s
+  | .tagRef t => "vg " ++ toString t
+  | .invalid => "vi"
+
+def encHookItem : Item → String
+  | .text s => "it " ++ encStr s
+  | .html s => "ih " ++ encStr s
+  | .robj s => "ir " ++ encStr s
+  | .tagRef t => "ig " ++ toString t
+
+def encOutcome : Outcome → String
+  | .done => "done"
+  | .raised e => "raised " ++ encErr e
 
 end HtmlVerif.Wire
